@@ -65,16 +65,21 @@ impl Processor {
 impl NodeProcessor for Processor {
     fn process_expression(&mut self, expression: &mut Expression) {
         if let Expression::If(if_expression) = expression {
-            let else_result = if_expression.iter_branches().fold(
-                if_expression.get_else_result().clone(),
-                |else_result, branch| {
-                    self.convert_if_branch(
-                        branch.get_condition().clone(),
-                        branch.get_result().clone(),
-                        else_result,
-                    )
-                },
-            );
+            let else_result = if_expression
+                .iter_branches()
+                .collect::<Vec<_>>()
+                .into_iter()
+                .rev()
+                .fold(
+                    if_expression.get_else_result().clone(),
+                    |else_result, branch| {
+                        self.convert_if_branch(
+                            branch.get_condition().clone(),
+                            branch.get_result().clone(),
+                            else_result,
+                        )
+                    },
+                );
 
             *expression = self.convert_if_branch(
                 if_expression.get_condition().clone(),
